@@ -40,7 +40,7 @@ pub fn run(sh: &mut shell::Shell, cl: &CommandLine, cmd: &Command,
     }
 
     if !Path::new(&dir_to).exists() {
-        let info = format!("cicada: cd: {}: No such file or directory", &args[1]);
+        let info = format!("cicada: cd: {}: No such file or directory", &dir_to);
         print_stderr_with_capture(&info, &mut cr, cl, cmd, capture);
         return cr;
     }
